@@ -4,9 +4,10 @@
 # usage: tools_seed_rerun.sh [lanes] [pattern]
 lanes=${1:-3}; pat=${2:-.}
 declare -A EXTRA=( [C03-B-r2]="C17" )
-ls /verif/seeded | grep -E '^C[0-9]+-[AB](-r2)?$' | grep -E "$pat" | while read d; do
+ls /verif/seeded | grep -E '^C[0-9]+-[AB](-r[23])?$' | grep -E "$pat" | while read d; do
   p=${d%%-*}; rest=${d#*-}; w=${rest%%-*}; sfx=""
   [[ $d == *-r2 ]] && sfx="--suffix r2"
+  [[ $d == *-r3 ]] && sfx="--suffix r3"
   ch=$p; [ -n "${EXTRA[$d]}" ] && ch="$p,${EXTRA[$d]}"
   echo "$p $w --skip-confirm $sfx --checks $ch"
 done | xargs -P $lanes -L 1 sh -c 'timeout 5400 python3 /verif/tools_seed_eval.py "$0" "$@" > /tmp/seedrerun_$0_$1_$3.log 2>&1' 
